@@ -12,6 +12,12 @@
 
 namespace exe {
 
+// modification times of virtual files that were rewritten during a case (default: long ago)
+static std::map<std::string, long> &vfs_mtime()
+{
+  static std::map<std::string, long> m;
+  return m;
+}
 static std::map<std::string, std::string> &vfs()
 {
   static std::map<std::string, std::string> m;
@@ -40,9 +46,15 @@ std::string Env::json() const
   return s;
 }
 
+void rewrite_file(const std::string &path, const std::string &content, long mtime)
+{
+  vfs()[path]       = content;
+  vfs_mtime()[path] = mtime;
+}
 void env_apply(const Env &e)
 {
   vfs() = e.files;
+  vfs_mtime().clear();
   if (e.has_localdomain) setenv("LOCALDOMAIN", e.localdomain.c_str(), 1);
   else unsetenv("LOCALDOMAIN");
   if (e.has_resopts) setenv("RES_OPTIONS", e.resopts.c_str(), 1);
@@ -453,7 +465,7 @@ int stat(const char *path, struct stat *st)
     memset(st, 0, sizeof *st);
     st->st_mode  = S_IFREG | 0644;
     st->st_size  = (off_t)it->second.size();
-    st->st_mtime = 1000;
+    st->st_mtime = exe::vfs_mtime().count(path) ? exe::vfs_mtime()[path] : 1000;
     return 0;
   }
   return real(path, st);
